@@ -72,10 +72,7 @@ class YowNetworkLayer(YowLayer, ConnectionCallbacks):
 
     @EventCallback(EVENT_STATE_CONNECT)
     def onConnectLayerEvent(self, ev):
-        if not self.connected:
-            self.createConnection()
-        else:
-            logger.warn("Received connect event while already connected")
+        self.createConnection()
         return True
 
     @EventCallback(EVENT_STATE_DISCONNECT)
@@ -84,12 +81,23 @@ class YowNetworkLayer(YowLayer, ConnectionCallbacks):
         return True
 
     def createConnection(self):
+        if self.state in (self.__class__.STATE_CONNECTING, self.__class__.STATE_CONNECTED):
+            # also while a connection is still being established: a second dispatcher would be opened next to the first,
+            # both would announce themselves and each would start a login
+            logger.warn("Asked to connect while already connected or connecting")
+            return
         self._disconnect_reason = None
         self._dispatcher = self.__create_dispatcher(self.getProp(self.PROP_DISPATCHER, self.DISPATCHER_DEFAULT))
         self.state = self.__class__.STATE_CONNECTING
         endpoint = self.getProp(self.__class__.PROP_ENDPOINT)
         logger.info("Connecting to %s:%s" % endpoint)
-        self._dispatcher.connect(endpoint)
+        try:
+            self._dispatcher.connect(endpoint)
+        except Exception:
+            # the attempt ended before it began (e.g. the endpoint does not resolve): it must not count as "connecting"
+            if self.state == self.__class__.STATE_CONNECTING:
+                self.state = self.__class__.STATE_DISCONNECTED
+            raise
 
     def destroyConnection(self, reason=None):
         self._disconnect_reason = reason
